@@ -1,6 +1,26 @@
 """C18 — HostClient connection pool respects MaxConns with exact accounting
 (specs/client/HostClientPool.tla; exhaustive TLC incl. liveness + trace validation B2)."""
+import re
 from verif.core import Infra
+
+
+def crash_as_violation(ctx, e):
+    """A panic raised inside fasthttp's own client code (top frame not in a harness file) while the
+    driver only uses the public API is real-code behaviour: report it as a violation, not as infra."""
+    msg = str(e)
+    m = re.search(r"panic: (.*)", msg)
+    if not m:
+        return False
+    frames = re.findall(r"^(github\.com/valyala/fasthttp\.[^\n]*)\n\s+(\S+\.go):\d+", msg, re.M)
+    if not frames:
+        return False
+    fn, path = frames[0]
+    if "zz_verif" in path or "/harness/" in path or not path.endswith("client.go"):
+        return False
+    fn = re.sub(r"\(0x[0-9a-f, .x]*\)$", "", fn)
+    ctx.violation("crash:" + fn, "the client code panicked: %s; stack top %s (%s)" % (m.group(1), fn, path),
+                  dict(output=msg[-3000:]))
+    return True
 META = dict(
     technique="TLC exhaustive model check of HostClientPool.tla (all interleavings of AcquireConn/queueForIdle/tryDeliver/cancel/ReleaseConn/CloseConn/decConnsCount/dialConnFor/cleaner with dial faults; safety + liveness) + TLC trace validation of hook-recorded executions of the real HostClient (B2) + dialer ground truth",
     design_ref="DESIGN.md §4 C18, Appendix A.2",
@@ -28,8 +48,13 @@ def run(ctx):
         cfgs = ["1:1:%d" % (k % 2), "2:1:%d" % ((k + 1) % 2), ["2:0:1", "1:0:0", "3:1:1", "3:0:0"][k]]
     else:
         cfgs = ["1:1:1", "2:1:1", "2:1:0", "1:0:1", "2:0:0", "3:1:1", "1:1:0", "3:0:1"]
-    recs = ctx.go_test(".", ["c18_"], "^TestVerifC18Pool$", timeout=1800,
-                       env={"VERIF_C18_TRACES": ntr, "VERIF_C18_CFGS": ",".join(cfgs)})
+    try:
+        recs = ctx.go_test(".", ["c18_"], "^TestVerifC18Pool$", timeout=1800,
+                           env={"VERIF_C18_TRACES": ntr, "VERIF_C18_CFGS": ",".join(cfgs)})
+    except Infra as e:
+        if crash_as_violation(ctx, e):
+            return
+        raise
     ctx.absorb(recs)
     tf = ctx.extra.pop("trace_file", None)
     if not tf:
